@@ -76,3 +76,31 @@ func init() {
 	mut("C02", "(benign) v1 siacoin input checks as separate if statements", false, "",
 		Edit{v, "\t\t\treturn fmt.Errorf(\"siacoin input %v has timelocked parent\", i)\n\t\t} else if txid, ok := ms.spent(types.Hash256(sci.ParentID)); ok {", "\t\t\treturn fmt.Errorf(\"siacoin input %v has timelocked parent\", i)\n\t\t}\n\t\tif txid, ok := ms.spent(types.Hash256(sci.ParentID)); ok {"})
 }
+
+func init() {
+	// ---- C03 ----
+	v := "consensus/validation.go"
+	s := "consensus/state.go"
+	mut("C03", "revision verified with the revision's own keys", true, "v2-revision-signed-current-keys",
+		Edit{v, "return validateSignatures(rev, cur.RenterPublicKey, cur.HostPublicKey)", "return validateSignatures(rev, rev.RenterPublicKey, rev.HostPublicKey)"})
+	mut("C03", "renewal: drop the host-key equality guard", true, "v2-renewal-keys-pinned:Host",
+		Edit{v, "\t\t\t} else if fc.HostPublicKey != renewal.NewContract.HostPublicKey {\n\t\t\t\treturn fmt.Errorf(\"file contract renewal %v changes host public key\", i)\n\t\t\t}", "\t\t\t}"})
+	mut("C03", "ContractSigHash zeroes only the renter signature", true, "sig-stripping",
+		Edit{s, "\tnilSigs(&fc.RenterSignature, &fc.HostSignature)\n\treturn hashAll(\"sig/filecontract\"", "\tnilSigs(&fc.RenterSignature)\n\treturn hashAll(\"sig/filecontract\""})
+	mut("C03", "WholeSigHash drops the FileContractRevisions block", true, "sighash-coverage|whole:FileContractRevisions",
+		Edit{s, "\th.E.WriteUint64(uint64(len((txn.FileContractRevisions))))\n\tfor i := range txn.FileContractRevisions {\n\t\ttxn.FileContractRevisions[i].EncodeTo(h.E)\n\t}\n", ""})
+	mut("C03", "attestation: VerifyHash result ignored", true, "v2-attestation-signed",
+		Edit{v, "\t\tcase !a.PublicKey.VerifyHash(ms.base.AttestationSigHash(a), a.Signature):\n\t\t\treturn fmt.Errorf(\"attestation %v has invalid signature\", i)\n", "\t\tcase !a.PublicKey.VerifyHash(ms.base.AttestationSigHash(a), a.Signature) && false:\n\t\t\treturn fmt.Errorf(\"attestation %v has invalid signature\", i)\n"})
+	mut("C03", "v2 foundation update accepted when any input exists", true, "v2-foundation:authorised",
+		Edit{v, "\t\tif in.Parent.SiacoinOutput.Address == ms.base.FoundationManagementAddress {\n\t\t\treturn nil\n\t\t}", "\t\tif in.Parent.SiacoinOutput.Address != types.VoidAddress {\n\t\t\treturn nil\n\t\t}"})
+	mut("C03", "v2 siafund inputs: policy address compared with the claim address", true, "v2-policy-address:SiafundInputs",
+		Edit{v, "validateV2SpendPolicy(ms, sigHash, sfi.SatisfiedPolicy, sfi.Parent.SiafundOutput.Address, types.Hash256(sfi.Parent.ID))", "validateV2SpendPolicy(ms, sigHash, sfi.SatisfiedPolicy, sfi.ClaimAddress, types.Hash256(sfi.Parent.ID))"})
+	mut("C03", "PartialSigHash indexes outputs by loop position", true, "sighash-coverage|partial:SiacoinOutputs",
+		Edit{s, "\tfor _, i := range cf.SiacoinOutputs {\n\t\ttypes.V1SiacoinOutput(txn.SiacoinOutputs[i]).EncodeTo(h.E)", "\tfor i := range cf.SiacoinOutputs {\n\t\ttypes.V1SiacoinOutput(txn.SiacoinOutputs[i]).EncodeTo(h.E)"})
+	mut("C03", "consensus.ApplyBlock overrides the subsidy address", true, "foundation-writers",
+		Edit{"consensus/application.go", "\ts.FoundationSubsidyAddress = ms.foundationSubsidy\n", "\ts.FoundationSubsidyAddress = ms.foundationManagement\n"})
+	mut("C03", "v1 signatures verified against a fixed whole-transaction hash", true, "v1-sig-verifies",
+		Edit{v, "\t\t\t\tsigHash = ms.base.PartialSigHash(txn, sig.CoveredFields)\n", "\t\t\t\tsigHash = ms.base.WholeSigHash(txn, sig.ParentID, sig.PublicKeyIndex, sig.Timelock, nil)\n"})
+	mut("C03", "(benign) contract signature closure inlined for new contracts", false, "",
+		Edit{v, "\t\treturn validateSignatures(fc, fc.RenterPublicKey, fc.HostPublicKey)\n\t}\n\n\tvalidateRevision", "\t\tcontractHash := ms.base.ContractSigHash(fc)\n\t\tif !fc.RenterPublicKey.VerifyHash(contractHash, fc.RenterSignature) {\n\t\t\treturn errors.New(\"has invalid renter signature\")\n\t\t} else if !fc.HostPublicKey.VerifyHash(contractHash, fc.HostSignature) {\n\t\t\treturn errors.New(\"has invalid host signature\")\n\t\t}\n\t\treturn nil\n\t}\n\n\tvalidateRevision"})
+}
